@@ -59,6 +59,9 @@ def _compare(real, rexc, ref, fexc, what):
         assert type(real) is type(ref) or (isinstance(real, (int, bool)) and isinstance(ref, (int, bool))) or _sym(real) or _sym(ref), \
             "%s: result type %s, reference prescribes %s" % (what, type(real).__name__, type(ref).__name__)
         assert real == ref, "%s: value differs from the reference semantics" % what
+        if isinstance(real, RealDecimal) and isinstance(ref, RealDecimal):
+            # equal numbers can still be written differently (sign of zero, scale): programs see that through str / keys
+            assert str(real) == str(ref), "%s: the result is written %s, the reference semantics give %s" % (what, real, ref)
 
 
 import types as _types
